@@ -44,8 +44,12 @@ class ByteReader(object):
 
     def skip_empty(self, I):
         """Drop leading blobs whose length is zero on the current path (they denote no bytes)."""
-        while self.rest and isinstance(self.rest[0], Blob) and not isinstance(self.rest[0].length, int) \
-                and I.E.implied(self.rest[0].length == 0):
+        while self.rest and isinstance(self.rest[0], Blob) and not isinstance(self.rest[0].length, int):
+            ln = self.rest[0].length
+            if ln.lo is not None and ln.lo > 0:
+                break                      # syntactically non-empty: no solver call needed
+            if not I.E.implied(ln == 0):
+                break
             self.rest.pop(0)
 
     def take(self, I, n):
